@@ -112,6 +112,8 @@ def build(tier, seed):
     nmax = 3 if tier == "quick" else 4
     from props import C09chain
     obs.extend(C09chain.build(vprop.enum_ob("x", [], lambda: range(1, 3), _check_sparse, "").run))
+    from props import C09reverse
+    obs.extend(C09reverse.build(vprop.enum_ob("x", [], lambda: range(3), _check_misc, "").run))
     obs.append(vprop.enum_ob("C09.sparse.enum", [ST + ":get_sparse_operator", ST + ":_kronecker_operators"], lambda: range(1, nmax + 1), _check_sparse,
                              "bounded-exhaustive per width: get_sparse_operator of every one of the 4^n Pauli strings (complex coefficient, identity padding to n..n+2) equals the Kronecker "
                              "definition with qubit 0 leftmost; unsimplified sums with repeated strings, constants, the zero operator; too small n raises", timeout=900))
